@@ -1,7 +1,7 @@
 (* Dispatch table of the C01/C02 hypothesis checkers and of the path-form C02 checker. *)
 From Coq Require Import NArith ZArith List Bool String.
 From DBG Require Import Interop.Val Spec.Dna Spec.GraphIndex Spec.Unitig Packed.ExtsModel Algo.Compress
-  Check.GraphCheck Check.CompressHyp Check.UnitigCheck Interop.DispatchGraph.
+  Check.GraphCheck Check.CompressHyp Check.UnitigCheck Check.ChainCheck Interop.DispatchGraph.
 Import ListNotations.
 Open Scope N_scope.
 
@@ -15,6 +15,16 @@ Definition unitig_ops : list (string * handler) :=
         | Some s, Some T => Some (VL [ofbool (tbl_okb pay (N.to_nat k) s T); ofbool (exts_symb pay s T);
                                       ofbool (exts_closedb pay s T)])
         | _, _ => None end | _ => None end);
+    (* a table that is ONE simple chain, entries in chain order (linear-time checker, Check/ChainCheck.v): hypothesis of
+       C02_chain_single_node; and its conclusion read on an implementation output: exactly one node of n + K - 1 bases *)
+    ("chk.c02.chain"%string, fun a => match a with [VN k; st; VN mode; VL tbl] =>
+        match vbool st, omap v_entry tbl with
+        | Some s, Some T => Some (ofbool (chain_table_okb pay (pay_join mode) (N.to_nat k) s T))
+        | _, _ => None end | _ => None end);
+    ("chk.c02.single_node"%string, fun a => match a with [VN k; VN nkeys; VL nodes] =>
+        match omap v_node nodes with
+        | Some ns => Some (ofbool (chk_single_node pay (N.to_nat k) ns (N.to_nat nkeys)))
+        | None => None end | _ => None end);
     ("chk.total"%string, fun a => match a with [VN k; st; VN mode; VL tbl] =>
         match vbool st, omap v_entry tbl with
         | Some s, Some T => Some (ofbool (match compress_kmers pay pay_reduce (pay_join mode) s T with Some _ => true | None => false end))
